@@ -10,10 +10,10 @@ CHECKS = {
 }
 CHECKS.update({
     "C02": ("model_checking", "phased explicit-state BFS (proposal / allowed reads / every rejection mask / following history) on the real State + exhaustive scripted acceptance patterns through the real samplers",
-            "Every reachable state of the proposal-decision protocol on the real State of each model kind (all warm-up/read subsets, a proposal alphabet incl. overflowing and non-finite values, every per-individual mask, bounded following history) and every scripted acceptance pattern of the four samplers; after every transition the state is compared with a from-scratch evaluation of where(rejected, before, proposed).",
+            "Every reachable state of the proposal-decision protocol on the real State of each model kind (all warm-up/read subsets, a proposal alphabet incl. overflowing and non-finite values, every per-individual mask, bounded following history) and every scripted acceptance pattern of the four samplers; after every transition the state is compared with a from-scratch evaluation of where(rejected, before, proposed). The protocol also contains a move of the state (to_device) and an update made without snapshot between the proposal and the decision (a later rejection must then be refused with the documented input error, never half-applied).",
             "Proposal alphabets and cohort sizes (2-3 individuals) are small; following history depth-bounded; PYTHONHASHSEED=0."),
     "C19": ("model_checking", "exhaustive stepping of the real (iteration, temperature) machine over a configuration grid + exhaustive binary acceptance-history tree through the real adaptive-scale code",
-            "Every configuration of the annealing grid is run on the real algorithm object (initialisation + one update per iteration, plus complete tiny fits) and every binary acceptance history up to three windows is fed through every sampler class; invariants are checked on every transition.",
+            "Every configuration of the annealing grid is run on the real algorithm object (initialisation + one update per iteration, plus complete tiny fits) and every binary acceptance history up to three windows is fed through every sampler class; invariants are checked on every transition. Proposal scales start at 1, at 1e-7..3e-10 and at 1e28; factors 0.1, 0.5, 0.9.",
             "Default (linear) annealing scheme only; grids as listed in the evidence bounds; reference plateau length max(1, A // (P-1))."),
 })
 CHECKS.update({
@@ -21,26 +21,26 @@ CHECKS.update({
             "Every script with a bounded number of deviations from the default draws is run through the real sample() of the four sampler kinds, for every latent variable of the catalogue models, several start states and inverse temperatures; each decision is compared with the documented rule evaluated from scratch (exactly, ties included) and draw consumption is counted.",
             "Small draw alphabets; nothing about the invariant distribution of the chain; mixture model not covered."),
     "C05": ("model_checking", "exhaustive stepping of the real iteration machine (k, n_burn_in, S_k) with a probe model over a configuration grid, plus recorded complete fits of real models",
-            "Every configuration (iterations, burn-in fraction or count, step power) of the grid drives the real _maximization_step for every iteration with a probe model returning a known statistics sequence; the weights of every s_j in S_k are compared with the exact recursion; real fits bind the same recursion to real models.",
+            "Every configuration (iterations, burn-in fraction or count, step power) of the grid drives the real _maximization_step for every iteration with a probe model returning a known statistics sequence; the weights of every s_j in S_k are compared with the exact recursion; real fits bind the same recursion to real models. The configuration reaches the algorithm through every route: constructor keywords, algo.load_parameters, options written into an existing settings object, one settings object reused after n_iter was changed; fractions include values that are not whole percents.",
             "n_burn_in = count or int(fraction*n_iter); probe model replaces only the two model methods the step calls."),
     "C08": ("exploration", "exhaustive grid enumeration of distribution parameters and layouts through the real families and model states against scipy.stats",
             "Full products of small parameter alphabets (values, locations, scales, Weibull shape/scale, shifts, censoring, layouts, dtypes the models reach) evaluated through the real distribution families and through real model states, compared entry by entry with scipy.stats in float64.",
             "Grid alphabets only; tolerance 2e-5 of the summed term magnitudes; float32 event times are unreachable from the models and excluded."),
     "C09": ("exploration", "exhaustive grid enumeration of parameters, individual parameters, age lists and request layouts through estimate / compute_individual_trajectory against an independent float64 closed form",
-            "Every combination of model kind, dimension, sources, parameter vector, individual parameters, age list and request form in the grid is run through the real estimate(); values are compared with an independent numpy implementation of the documented formula, plus range, monotonicity, reference-time value, order and layout of the result.",
+            "Every combination of model kind, dimension, sources, parameter vector, individual parameters, age list and request form in the grid is run through the real estimate(); values are compared with an independent numpy implementation of the documented formula, plus range, monotonicity, reference-time value, order and layout of the result. Ages include values with more than six decimals.",
             "Grid alphabets only; per-value tolerance derived from float32 rounding of the logit; joint event columns only checked for count and range."),
 })
 CHECKS.update({
     "C15": ("model_checking", "exhaustive enumeration of all labelled digraphs up to n nodes (plus variants, relabellings, insertion orders, model graphs, other hash seeds) through both real DAG constructors against networkx",
-            "All labelled digraphs on <= 4 nodes (quick) / all 2^20 on 5 nodes (thorough), with self-loop / unknown-reference variants, every relabelling and insertion order for small n, enumerated larger families and every model kind's graph, are constructed by the real VariablesDAG and compared with networkx: acceptance, topological order, exact transitive sets in order, determinism across constructions, orders and interpreter hash seeds.",
+            "All labelled digraphs on <= 4 nodes (quick) / all 2^20 on 5 nodes (thorough), with self-loop / unknown-reference variants, every relabelling and insertion order for small n, enumerated larger families and every model kind's graph, are constructed by the real VariablesDAG and compared with networkx: acceptance, topological order, exact transitive sets in order, determinism across constructions, orders and interpreter hash seeds. Definitions are also given through functions that share one code object (explicit __signature__, functools.wraps) and with reserved-looking variable names (state, self, ...).",
             "Graphs beyond the enumerated sizes are covered only by the hand-enumerated families; tie-break order itself is not asserted, only its determinism."),
     "C20": ("exploration", "exhaustive enumeration of visit histories / row orders / request forms for the constant model and of a deterministic cohort catalogue for the LME model against reference implementations",
-            "All 4^6 value tables (x row orders, prediction types, request forms) through the real constant model against a 10-line reference; a closed-form catalogue of LME cohorts through the real fit/personalize/estimate with the MixedLM fit captured: random effects against statsmodels' own and against (Z'Z + Psi^-1)^-1 Z'r, trajectories affine in age.",
+            "All 4^6 value tables (x row orders, prediction types, request forms) through the real constant model against a 10-line reference; a closed-form catalogue of LME cohorts through the real fit/personalize/estimate with the MixedLM fit captured: random effects against statsmodels' own and against (Z'Z + Psi^-1)^-1 Z'r, trajectories affine in age. One ConstantModel object is personalised several times in a row with every column order / feature subset (parameters and estimates after every call, parameters listed in another key order); LME fits also use the powell / nm optimisers and a model saved and loaded back before use.",
             "LME cohorts are a finite catalogue; age-normalisation constants are taken as stored; optimiser failures of statsmodels itself are expected outcomes."),
 })
 CHECKS.update({
     "C14": ("exploration", "exhaustive enumeration of small tables (all missing patterns, all row permutations, identifier types, layouts) and of a malformation catalogue through the real readers against a pure-Python reference",
-            "Every valid table of the bounded space (<= 3 individuals x <= 3 visits x 2 features, all NaN patterns, every row permutation, four identifier types, visit / event / joint / covariate layouts, column and index forms) is ingested by the real readers and compared with a dict-based reference (order, sorting, alignment, mask, counts, round trip through to_pandas, caller's table untouched); every malformation of the property's families at every row position must raise LeaspyDataInputError.",
+            "Every valid table of the bounded space (<= 3 individuals x <= 3 visits x 2 features, all NaN patterns, every row permutation, four identifier types, visit / event / joint / covariate layouts, column and index forms) is ingested by the real readers and compared with a dict-based reference (order, sorting, alignment, mask, counts, round trip through to_pandas, caller's table untouched); every malformation of the property's families at every row position must raise LeaspyDataInputError. Tables also come with row labels that are not 0..n-1 in order (reversed, sparse, text, all equal) and with individuals sharing the same event time and indicator.",
             "Tables beyond the stated sizes are not covered; rejection is demanded only for the malformation families the property lists."),
 })
 CHECKS.update({
@@ -55,27 +55,27 @@ CHECKS.update({
 })
 CHECKS.update({
     "C12": ("exploration", "exhaustive enumeration of model kind x dimension x sources x noise x feature naming x instance name x construction route x parameter source (tiny seeded fits, hand-written vectors) through fit / save / load / save against self-consistency and round-trip oracles",
-            "Every configuration of the grid is fitted (tiny seeded fits with a memory phase) or loaded from hand-written numbers, saved, re-loaded, saved again (three generations): population variables equal their prior modes, derived values and trajectories agree with the saved parameters (float64 closed form), the reloaded model has equal class, hyperparameters, parameters and trajectories, and the file is reproduced byte for byte.",
+            "Every configuration of the grid is fitted (tiny seeded fits with a memory phase) or loaded from hand-written numbers, saved, re-loaded, saved again (three generations): population variables equal their prior modes, derived values and trajectories agree with the saved parameters (float64 closed form), the reloaded model has equal class, hyperparameters, parameters and trajectories, and the file is reproduced byte for byte. Cases include a non-default number of competing events, an object calibrated, used (trajectories computed) and calibrated again, and the instance name of the reloaded object.",
             "Grid alphabets only; float32 rounding and the documented 0-d vs (1,) noise_std shape are tolerated on the first reload only."),
 })
 CHECKS.update({
     "C06": ("exploration", "exhaustive metamorphic enumeration: model kind x cohort shape x every missing pattern x fill value written under the mask x extra padding, through the real state / statistics / updates / fit / personalizations",
-            "For every cohort and missing pattern of the bounded space the dataset tensors are rewritten with each fill value (0, finite, huge, NaN, +-inf) at masked positions and padded visits and with 0-2 extra padding visits; likelihood terms, statistics, parameter updates, trajectories at real visits, scripted fits and personalizations must be bit-identical (same shapes) or rounding-identical (other padding), counts and noise must equal a float64 reference over observed entries, and results must not depend on which other entries are missing.",
+            "For every cohort and missing pattern of the bounded space the dataset tensors are rewritten with each fill value (0, finite, huge, NaN, +-inf) at masked positions and padded visits and with 0-2 extra padding visits; likelihood terms, statistics, parameter updates, trajectories at real visits, scripted fits and personalizations must be bit-identical (same shapes) or rounding-identical (other padding), counts and noise must equal a float64 reference over observed entries, and results must not depend on which other entries are missing. Data are also loaded over data already held by the state (same stored numbers, other mask) and every parameter of the data-driven initialisation of a new model is compared across fills and padding amounts.",
             "Cohorts of 2-3 individuals with <= 3 visits; personalization / fit part on the smallest shapes; LME and constant models not covered."),
 })
 CHECKS.update({
     "C10": ("exploration", "exhaustive grid enumeration of states (individual log-accelerations, population values, sources, cohort sizes) through the real re-centring step and of (v0, g, betas) products through the real mixing-matrix construction, against float64 re-derivations",
-            "For every state of the grid the real compute_sufficient_statistics is applied to a cloned State and trajectories, attachment terms, event terms and the set of modified variables are compared before/after; for every (dimension, sources, v0, g, betas) of the grid every row of mixing_matrix and every space shift is checked orthogonal to the direction of progression in the model's own metric (also through autograd tangents of the real model function) and the basis has full rank.",
+            "For every state of the grid the real compute_sufficient_statistics is applied to a cloned State and trajectories, attachment terms, event terms and the set of modified variables are compared before/after; for every (dimension, sources, v0, g, betas) of the grid every row of mixing_matrix and every space shift is checked orthogonal to the direction of progression in the model's own metric (also through autograd tangents of the real model function) and the basis has full rank. Gauge cohorts include joint models with competing events and a member without any observed value; orthogonality is also checked on models loaded from a file that carries a mixing matrix computed for other values.",
             "Grid alphabets only; Bernoulli attachment and 2-event joint models not covered; points where (G v0)[0] == 0 are unreachable from the models and excluded."),
 })
 CHECKS.update({
     "C18": ("exploration", "exhaustive enumeration of models x feature lists x random and table-driven designs x seeds, and of an invalid-design catalogue, through the real simulate() with recording wrappers on every random source",
-            "Every valid design of the grid (random designs over small alphabets of all parameters, every visit table with <= 3 rows plus hand tables) is simulated with every catalogue model and feature list under a draw budget / alarm: individuals, rounded unique increasing ages, finite values in [0,1], one reported parameter row per individual, columns holding the named feature's trajectory for the reported parameters; every invalid design must be refused with LeaspyAlgoInputError before any random draw.",
+            "Every valid design of the grid (random designs over small alphabets of all parameters, every visit table with <= 3 rows plus hand tables) is simulated with every catalogue model and feature list under a draw budget / alarm: individuals, rounded unique increasing ages, finite values in [0,1], one reported parameter row per individual, columns holding the named feature's trajectory for the reported parameters; every invalid design must be refused with LeaspyAlgoInputError before any random draw. Valid requests on the other model kinds must be refused before any draw; every completed valid case is run a second time with the very same request objects (must complete and give the same table); identifiers may be categorical, with unused categories.",
             "Design alphabets are small; validity is the documented requirement set; NaN / inf / bool parameter values and unknown feature names are outside the space."),
 })
 CHECKS.update({
     "C13": ("model_checking", "explicit-state BFS over sequences of public API calls (fit / estimate / personalize x 3 / simulate / save+load) on a real model object, deduplicated on a canonical key of what the object holds, with deep snapshots around every call and a differential oracle against a history-free model",
-            "Every call sequence up to the depth bound is executed on real model objects (states = canonical keys of parameters + data / latent values held by model.state); around every call the model, the caller's table / Data / settings are deep-snapshotted; non-fit calls must change nothing and leave nothing behind, a repeated call must repeat its answer, and the result of a call after any history must be bit-identical to the same call on a model holding the same parameters and no history (optimiser start point included).",
+            "Every call sequence up to the depth bound is executed on real model objects (states = canonical keys of parameters + data / latent values held by model.state); around every call the model, the caller's table / Data / settings are deep-snapshotted; non-fit calls must change nothing and leave nothing behind, a repeated call must repeat its answer, and the result of a call after any history must be bit-identical to the same call on a model holding the same parameters and no history (optimiser start point included). Calls with custom settings also pass keyword arguments next to the settings object; the benchmark kinds (lme with and without random slope, constant) are explored with their own BFS (whole-object snapshot, inputs, repetition, freshly loaded reference).",
             "Depth 3 (quick) / 4 (thorough); tiny fits and personalizations; mixture model not covered; where a saved file is not bit-faithful (C12 territory) the reference gets the exact parameter tensors."),
 })
 CHECKS.update({
